@@ -145,21 +145,51 @@ package keygen
 //@   nopanic[C05]
 //@   requires d0rok(r) && out != nil && !closed(out)
 //@   ensures result1 == nil ==> (typeis(result0, *round2R) && d2rok(result0.(*round2R)))
+// refinement of the interface contract of round.Round.Finalize (what the handler relies on)
+//@   ensures !closed(out)
+//@   ensures result1 == nil ==> result0 != nil
+//@   ensures typeis(result0, *round.Abort) ==> result0.(*round.Abort).Err != nil
+//@   ensures typeis(result0, *round.Output) ==> result0.(*round.Output).Result != nil
 //@ func (*round1S).Finalize
 //@   nopanic[C05]
 //@   requires d1sok(r) && ot.cssok1(r.sender) && out != nil && !closed(out) && r.otMsg != nil
 //@   ensures result1 == nil ==> (typeis(result0, *round2S) && d2sok(result0.(*round2S)))
+// refinement of the interface contract of round.Round.Finalize (what the handler relies on)
+//@   ensures !closed(out)
+//@   ensures result1 == nil ==> result0 != nil
+//@   ensures typeis(result0, *round.Abort) ==> result0.(*round.Abort).Err != nil
+//@   ensures typeis(result0, *round.Output) ==> result0.(*round.Output).Result != nil
 //@ func (*round2R).Finalize
 //@   nopanic[C05]
 //@   requires d2rok(r) && out != nil && !closed(out)
 //@   ensures result1 == nil ==> (typeis(result0, *round3R) && result0.(*round3R).round2R == r)
+// refinement of the interface contract of round.Round.Finalize (what the handler relies on)
+//@   ensures !closed(out)
+//@   ensures result1 == nil ==> result0 != nil
+//@   ensures typeis(result0, *round.Abort) ==> result0.(*round.Abort).Err != nil
+//@   ensures typeis(result0, *round.Output) ==> result0.(*round.Output).Result != nil
 //@ func (*round2S).Finalize
 //@   nopanic[C05]
 //@   requires d2sok(r) && out != nil && !closed(out)
 //@   ensures result1 == nil ==> (typeis(result0, *round3S) && result0.(*round3S).round2S == r)
+// refinement of the interface contract of round.Round.Finalize (what the handler relies on)
+//@   ensures !closed(out)
+//@   ensures result1 == nil ==> result0 != nil
+//@   ensures typeis(result0, *round.Abort) ==> result0.(*round.Abort).Err != nil
+//@   ensures typeis(result0, *round.Output) ==> result0.(*round.Output).Result != nil
 //@ func (*round3R).Finalize
 //@   nopanic[C05]
 //@   requires r != nil && d2rok(r.round2R) && out != nil && !closed(out)
+// refinement of the interface contract of round.Round.Finalize (what the handler relies on)
+//@   ensures !closed(out)
+//@   ensures result1 == nil ==> result0 != nil
+//@   ensures typeis(result0, *round.Abort) ==> result0.(*round.Abort).Err != nil
+//@   ensures typeis(result0, *round.Output) ==> result0.(*round.Output).Result != nil
 //@ func (*round3S).Finalize
 //@   nopanic[C05]
-//@   requires r != nil && d2sok(r.round2S)
+//@   requires r != nil && d2sok(r.round2S) && out != nil && !closed(out)
+// refinement of the interface contract of round.Round.Finalize (what the handler relies on)
+//@   ensures !closed(out)
+//@   ensures result1 == nil ==> result0 != nil
+//@   ensures typeis(result0, *round.Abort) ==> result0.(*round.Abort).Err != nil
+//@   ensures typeis(result0, *round.Output) ==> result0.(*round.Output).Result != nil
